@@ -18,6 +18,7 @@ package override
 
 import (
 	"fmt"
+	"path"
 	"strconv"
 	"strings"
 
@@ -127,13 +128,14 @@ func volumeIndexer(y any, p tree.Path) (string, error) {
 		if !ok {
 			return "", fmt.Errorf("service volume %s is missing a mount target", p)
 		}
-		return target, nil
+		// same key as after normalization, which cleans the target path
+		return path.Clean(target), nil
 	case string:
 		volume, err := format.ParseVolume(value)
 		if err != nil {
 			return "", err
 		}
-		return volume.Target, nil
+		return path.Clean(volume.Target), nil
 	}
 	return "", nil
 }
